@@ -478,7 +478,9 @@ class CallMixin(object):
                 raise EngineError('getattr with non-literal name')
             if len(args) == 3:
                 h = self.truthy(st, self.hasattr(st, args[0], name))
-                return self.branch(st, h, lambda s: self.getattr(s, args[0], name, line), lambda s: args[2])
+                # a literal list as the default (getattr(x, 'items', [])) becomes a heap list so that it can merge with the attribute
+                return self.branch(st, h, lambda s: self.getattr(s, args[0], name, line),
+                                   lambda s: self.as_v(s, args[2]) if isinstance(args[2], GList) else args[2])
             return self.getattr(st, args[0], name, line)
         if o is print:
             return self.lift(None)
@@ -497,6 +499,26 @@ class CallMixin(object):
                         return PyTuple([en.val for en in v.entries])
                     raise EngineError('tuple() of a conditionally built list')
                 return v.copy()
+            if isinstance(v, PyObj) and isinstance(v.o, tuple) and v.o and v.o[0] == 'dictview':
+                # list(d.values()) / list(d.keys()): a fresh list of the dict's size; the elements are the dict's values / keys in
+                # some order (left unconstrained apart from their declared type)
+                view, dv = v.o[1], v.o[2]
+                if view == 'items':
+                    raise EngineError('list(d.items())')
+                nr = self.new_ref(st, list)
+                st.heap['$LEN'] = z3.Store(self.harr(st, '$LEN'), nr, self.list_len(st, Val.r(dv.t)))
+                st.heap['$ELEM'] = z3.Store(self.harr(st, '$ELEM'), nr, fresh('listofview', z3.ArraySort(IntS, Val)))
+                st.heap['$OFF'] = z3.Store(self.harr(st, '$OFF'), nr, z3.IntVal(0))
+                self.trust('list(dict view): elements in unspecified order (unconstrained apart from the declared type)')
+                es = parse_spec('str') if view == 'keys' else dv.hint.elem
+                from .model import TypeSpec
+                return V(mkR(nr), TypeSpec('list', (), False, es))
+            if isinstance(v, PyObj) and isinstance(v.o, tuple) and len(v.o) == 2 and callable(v.o[0]):
+                # list(map(f, <constants>)) / list(zip(...)) / list(range(...)) over concrete items
+                items = self.iter_items(st, v)
+                if items is None:
+                    raise EngineError('list() of a lazy iterable over a symbolic sequence')
+                return GList([GEntry(z3.BoolVal(True), x) for x in items]) if o is list else PyTuple(items)
             if isinstance(v, PyObj) and isinstance(v.o, (list, tuple, set, frozenset, dict)):
                 return self.lift(list(v.o))
             if isinstance(v, V) and v.hint is not None and v.hint.kind in ('list', 'tuple'):
@@ -1257,6 +1279,11 @@ class CallMixin(object):
                 if inner is None:
                     return None
                 return [PyTuple([self.lift(i), x]) for i, x in enumerate(inner)]
+            if isinstance(o, tuple) and len(o) == 2 and o[0] is map and len(o[1]) == 2:
+                inner = self.iter_items(st, o[1][1])
+                if inner is None:
+                    return None
+                return [self.call_value(st, o[1][0], [x], {}, 0) for x in inner]
             if isinstance(o, tuple) and len(o) == 2 and o[0] is zip:
                 inners = [self.iter_items(st, a) for a in o[1]]
                 if any(i is None for i in inners):
